@@ -11,12 +11,12 @@ const secPkgPath = modPath + "/cmd/rdpgw/security"
 
 func init() {
 	register(&Property{
-		ID:        "C03",
-		Title:     "The host dialed is exactly the host that was requested and authorized",
-		DesignRef: "DESIGN.md §3 C03",
-		Technique: "SSA value identity (the checked value is the dialled value) + edge-cut guarded reachability on CheckSession/CheckHost + typestate model of Process for the refusal path",
-		LevelText: "Static: in the packet loop the address operand of the dial is the very SSA value passed to CheckHost, built by net.JoinHostPort from the server/port decoded from this iteration's packet; the session wrapper calls the next check only over the edge TargetServer == host with the unchanged host; security.CheckHost accepts only under 'any' or over an exact string equality with a configured entry after placeholder substitution and a non-empty user name ('signed' and unknown modes refuse); a refused host yields RESOURCE-ACCESS-DENIED, no dial, and ends the tunnel. Decides which value is compared and dialled on every path, not DNS/IDNA or UTF-16 value semantics.",
-		LevelNote: "Trusted: net.JoinHostPort/DialTimeout semantics, strings.Replace, the UTF-16 decoder's value semantics (whatever string it yields is the one checked and dialled).",
+		ID:          "C03",
+		Title:       "The host dialed is exactly the host that was requested and authorized",
+		DesignRef:   "DESIGN.md §3 C03",
+		Technique:   "SSA value identity (the checked value is the dialled value) + edge-cut guarded reachability on CheckSession/CheckHost + typestate model of Process for the refusal path",
+		LevelText:   "Static: in the packet loop the address operand of the dial is the very SSA value passed to CheckHost, built by net.JoinHostPort from the server/port decoded from this iteration's packet; the session wrapper calls the next check only over the edge TargetServer == host with the unchanged host; security.CheckHost accepts only under 'any' or over an exact string equality with a configured entry after placeholder substitution and a non-empty user name ('signed' and unknown modes refuse); a refused host yields RESOURCE-ACCESS-DENIED, no dial, and ends the tunnel. Decides which value is compared and dialled on every path, not DNS/IDNA or UTF-16 value semantics.",
+		LevelNote:   "Trusted: net.JoinHostPort/DialTimeout semantics, strings.Replace, the UTF-16 decoder's value semantics (whatever string it yields is the one checked and dialled).",
 		Explanation: "C03/same-value follows the dial's address operand and CheckHost's argument to one SSA value whose origin is JoinHostPort(channelRequest(pkt)...) with pkt from this iteration's Tunnel.Read. C03/session-binding and C03/list-policy delete the CFG edges on which the required equality holds and demand that the accepting exit becomes unreachable. C03/deny-path reads the refusal path from the typestate model. C03/wiring re-checks main.",
 		Assumptions: []string{"name resolution of odd strings and UTF-16 surrogate handling are out of scope; only identity of the checked and the dialled string is decided"},
 		Rules: []RuleDef{
